@@ -242,6 +242,79 @@ def inline_body(prog, body, keep=None, depth=2, same_file=True, only=None):
                 regions.append((boff, len(cb.blocks), ready, list(dest) if dest else None))
                 changed = True
                 continue
+            # a closure of this very body called directly (`let path_for = |ts| ..; path_for(t)`): env fields are bound to the
+            # operands the closure was built from, the tupled arguments to the tuple's fields
+            if re.search(r'ops::(function::)?(Fn|FnMut|FnOnce)::(call|call_mut|call_once)$', declared) and re.search(r'::\{closure#\d+\}$', cid) \
+                    and cid in prog.bodies and cid.startswith(body.root) and len(t.get('args', [])) == 2 and level.get(bi, 0) < depth:
+                ccb = prog.bodies[cid]
+                if ccb.is_coroutine or cid in stack_of.get(bi, ()) or (keep_rx is not None and keep_rx.search(cid)):
+                    continue
+                # the aggregate that built the closure value
+                tmpb = F.Body(prog, {**o, 'blocks': blocks, 'locals': locs})
+                env_ops = None
+                a0 = t['args'][0]
+                roots = tmpb.backward_locals([a0['p'][0]], limit=60) if 'p' in a0 else set()
+                for bj, sj, st in tmpb.stmts():
+                    r = st['r']
+                    if r['k'] == 'agg' and r.get('def') == cid and st['d'][0] in roots:
+                        env_ops = r['ops']
+                if env_ops is None:
+                    continue
+                loff = len(locs)
+                boff = len(blocks)
+                rn = _Renamer(loff, boff, {})
+                rn.upvar = {}
+                for l in ccb.locals:
+                    locs.append(dict(l))
+                assigns = []
+                for n_, op_ in enumerate(env_ops):
+                    rn.upvar[n_] = len(locs)
+                    locs.append({'ty': 'captured'})
+                    a = dict(op_)
+                    a.pop('m', None)
+                    assigns.append({'d': [rn.upvar[n_]], 'r': {'k': 'use', 'o': a}, 'ln': t.get('ln')})
+                # tupled arguments -> callee parameters _2, _3, ..
+                a1 = t['args'][1]
+                if 'p' in a1:
+                    for i in range(ccb.argc - 1):
+                        assigns.append({'d': [loff + 2 + i], 'r': {'k': 'use', 'o': {'p': list(a1['p']) + ['.::%d' % i]}}, 'ln': t.get('ln')})
+                T = t.get('t')
+                dest = t.get('d')
+                blk['s'] = list(blk['s']) + assigns
+                blk['t'] = {'k': 'goto', 't': boff, 'ln': t.get('ln'), 'inl': cid}
+
+                def env_place(pl):
+                    # (*_1).N / _1.N -> the bound operand
+                    if pl[0] == 1 and len(pl) > 1:
+                        rest = list(pl[1:])
+                        if rest and rest[0] == '*':
+                            rest = rest[1:]
+                        if rest and isinstance(rest[0], str):
+                            m = re.fullmatch(r'\.::(\d+)', rest[0])
+                            if m and int(m.group(1)) in rn.upvar:
+                                return [rn.upvar[int(m.group(1))]] + rest[1:]
+                    return None
+                orig_place = rn.place
+
+                def place2(pl, _orig=orig_place):
+                    ep = env_place(pl)
+                    return ep if ep is not None else _orig(pl)
+                rn.place = place2
+                for cbi, cblk in enumerate(ccb.blocks):
+                    nb_ = {'s': [rn.stmt(s_) for s_ in cblk['s']], 't': rn.term(cblk['t'])}
+                    if cblk.get('cl'):
+                        nb_['cl'] = cblk['cl']
+                    if cblk['t']['k'] == 'ret':
+                        if dest:
+                            nb_['s'].append({'d': list(dest), 'r': {'k': 'use', 'o': {'p': [loff + 0], 'm': 1}}, 'ln': cblk['t'].get('ln')})
+                        nb_['t'] = {'k': 'goto', 't': T, 'ln': cblk['t'].get('ln'), 'ret_of': cid} if T is not None else {'k': 'unreachable'}
+                    blocks.append(nb_)
+                    level[boff + cbi] = level.get(bi, 0) + 1
+                    stack_of[boff + cbi] = stack_of.get(bi, ()) + (cid,)
+                inlined.append(cid)
+                regions.append((boff, len(ccb.blocks), T, list(dest) if dest else None))
+                changed = True
+                continue
             # plain call
             cb = eligible(cid, bi)
             if cb is None or cb.is_async or cb.is_coroutine or cb.parent:
